@@ -61,6 +61,8 @@ class Run:
 
     def violation(self, rule, key, detail, where=None, path=None, config=None):
         self.obligations.append((rule, key, False, detail))
+        if any(v["key"] == "%s|%s" % (rule, key) for v in self.violations):
+            return
         self.violations.append({"property": self.prop, "rule": rule, "key": "%s|%s" % (rule, key), "detail": detail, "where": where, "path": path, "config": config})
 
     def check(self, cond, rule, key, detail_ok="", detail_bad="", where=None, **kw):
